@@ -6,10 +6,15 @@
      {"ev":"set","impl":"match_filters_ctx"|"match_filters_cont","mi":k,"kept":b}
                         match_filters(msgs[k], container); the container was built by StreamContext::from(JSON) resp. like
                         the search / export code does (Filter::from_json, enabled filters only)
+     {"ev":"set_big","impl":..,"n":N,"per":[{"mi":k,"kept":a,"dropped":b},..]}   a backlog of N > 2^17 messages (copies of msgs[..]) went
+                        through StreamContext::from + ONE process_stream_new_msgs call: a copies of msgs[k] are in the stream, b are not
      {"ev":"stream","s":[k1,k2,...]}      filter_as_streams is started on the input msgs[k1], msgs[k2], ... (real mpsc channels)
      {"ev":"fwd","pos":p,"intact":b}      the next message arrived on the output channel: it is the p-th input message
                                           (p = 0: not an input message), intact = equal to the input message in every field
      {"ev":"send","passed":a,"filtered":b}   filter_as_streams returned Ok((a, b)) and the output channel is drained
+     {"ev":"hangup_err","left":r}            (stream started with "hangup_after":k) the output function refused the (k+1)-th kept message
+                                          and filter_as_streams returned an error; r input messages were left in its input channel
+     {"ev":"hangup_ok","passed":a,"filtered":b,"left":r}   the same, but it returned Ok((a, b))
      {"ev":"export","s":[k1,...],"keep_lcs":[ids]}   an ExportPlugin (filters = F, lifecyclesToKeep = the lifecycles keep_lcs)
                                           processes hdr.xmsgs[k1], hdr.xmsgs[k2], ... (the message table with lifecycles
                                           that belong to the ecu of the message)
@@ -49,6 +54,14 @@ SetDecision == /\ Ev("set") /\ phase = "running"
                /\ Cur.mi \in 1..Len(hdr.msgs)
                /\ Cur.kept = Keep(hdr.F, hdr.msgs[Cur.mi], TRUE)
                /\ UNCHANGED <<case, phase, hdr, strm, last, nfwd, viol, klcs>>
+\* one huge backlog handed to the stream context in a single call: summary per message of the case (how many of its copies the
+\* stream holds / does not hold); the driver has checked that the stream's index list is strictly ascending (else an `error` event)
+SetBig == /\ Ev("set_big") /\ phase = "running"
+          /\ \A i \in 1..Len(Cur.per) :
+                /\ Cur.per[i].mi \in 1..Len(hdr.msgs)
+                /\ (Cur.per[i].kept > 0 => Keep(hdr.F, hdr.msgs[Cur.per[i].mi], TRUE))
+                /\ (Cur.per[i].dropped > 0 => ~Keep(hdr.F, hdr.msgs[Cur.per[i].mi], TRUE))
+          /\ UNCHANGED <<case, phase, hdr, strm, last, nfwd, viol, klcs>>
 StreamStart == /\ Ev("stream") /\ phase = "running"
                /\ \A k \in 1..Len(Cur.s) : Cur.s[k] \in 1..Len(hdr.msgs)
                /\ strm' = Cur.s /\ last' = 0 /\ nfwd' = 0 /\ phase' = "streaming"
@@ -66,6 +79,16 @@ StreamEnd == /\ Ev("send") /\ phase = "streaming"
              /\ Cur.passed + Cur.filtered = Len(strm)
              /\ phase' = "running"
              /\ UNCHANGED <<case, hdr, strm, last, nfwd, viol, klcs>>
+\* the consumer behind the output function hung up (it refused the message after the nfwd-th one).  The function may fail
+\* (no numbers are reported then); if it reports numbers, they have to add up to what it took from its input.
+StreamHangupErr == /\ Ev("hangup_err") /\ phase = "streaming"
+                   /\ phase' = "running"
+                   /\ UNCHANGED <<case, hdr, strm, last, nfwd, viol, klcs>>
+StreamHangupOk == /\ Ev("hangup_ok") /\ phase = "streaming"
+                  /\ Cur.passed = nfwd
+                  /\ Cur.passed + Cur.filtered = Len(strm) - Cur.left
+                  /\ phase' = "running"
+                  /\ UNCHANGED <<case, hdr, strm, last, nfwd, viol, klcs>>
 ExportStart == /\ Ev("export") /\ phase = "running"
                /\ \A k \in 1..Len(Cur.s) : Cur.s[k] \in 1..Len(hdr.xmsgs)
                /\ strm' = Cur.s /\ last' = 0 /\ nfwd' = 0 /\ phase' = "exporting" /\ klcs' = {Cur.keep_lcs[k] : k \in 1..Len(Cur.keep_lcs)}
@@ -87,6 +110,7 @@ End == /\ Ev("end") /\ phase = "running"
        /\ phase' = "ended" /\ UNCHANGED <<case, hdr, strm, last, nfwd, viol, klcs>>
 
 Matches == ENABLED SetDecision \/ ENABLED StreamStart \/ ENABLED Fwd \/ ENABLED StreamEnd \/ ENABLED End
+           \/ ENABLED StreamHangupErr \/ ENABLED StreamHangupOk \/ ENABLED SetBig
            \/ ENABLED ExportStart \/ ENABLED XFwd \/ ENABLED XEnd
 Reject == /\ l <= Len(Rec) /\ Cur.ev # "reset" /\ phase \in {"running", "streaming", "exporting"} /\ ~Matches
           /\ PrintT(<<"CASE_REJECTED", case, l, ToJson(Cur)>>)
@@ -98,7 +122,7 @@ SkipRest == /\ l <= Len(Rec) /\ Cur.ev # "reset" /\ phase \in {"rejected", "ende
                                   ELSE UNCHANGED <<viol, phase>>
             /\ UNCHANGED <<case, hdr, strm, last, nfwd, klcs>>
 
-Next == Reset \/ SetDecision \/ StreamStart \/ Fwd \/ StreamEnd \/ ExportStart \/ XFwd \/ XEnd \/ End \/ Reject \/ SkipRest
+Next == Reset \/ SetDecision \/ StreamStart \/ Fwd \/ StreamEnd \/ StreamHangupErr \/ StreamHangupOk \/ SetBig \/ ExportStart \/ XFwd \/ XEnd \/ End \/ Reject \/ SkipRest
 Spec == Init /\ [][Next]_vars
 
 AtEnd == l = Len(Rec) + 1
